@@ -64,35 +64,62 @@ def run(ctx):  # noqa: C901, PLR0912, PLR0915
     for fi, g, node, c in sites:
         enc = c.args[0] if c.args else None
         if not isinstance(enc, ast.Name) or node is None:
-            ctx.ob('C17.R1', f'{unparse(c)[:60]}', False, 'coding argument is not a loop variable', fi=fi, node=c)
+            ctx.ob('C17.R1', f'{unparse(c)[:60]}', False, 'coding argument is not a local variable', fi=fi, node=c)
             continue
         facts = g.facts_at(node)
-        member = [txt for txt, pol in facts if pol is True and txt.startswith(f'{enc.id} in ')
-                  and txt.endswith('supported_encodings')]
+        assigns = local_assignments(fi.node)
+        # how the coding is chosen: (a) the variable of a loop over the peer list, tested `in <supported>`;
+        #                           (b) next((e for e in <peer list> if e in <supported>), None), used when not None
+        member, peer = None, None
         loops = [l for l in node.loops if isinstance(l, ast.For) and isinstance(l.target, ast.Name)
                  and l.target.id == enc.id]
-        src_ok = False
-        src_txt = ''
         if loops:
-            it = loops[-1].iter
-            src_txt = unparse(it)
-            assigns = local_assignments(fi.node)
-            if isinstance(it, ast.Name):
-                vals = assigns.get(it.id, [])
-                src_ok = any(isinstance(v, ast.Call) and call_name(v) == 'parse_header' for v in vals)
-            elif src_txt == 'self.request_encodings':
-                src_ok = True
-        # announce + first match wins
-        body_src = ' '.join(unparse(s) for s in (loops[-1].body if loops else []))
-        announces = f"'Content-Encoding', {enc.id}" in body_src or f"['Content-Encoding'] = {enc.id}" in body_src
-        breaks = any(isinstance(x, ast.Break) for s in (loops[-1].body if loops else []) for x in ast.walk(s))
-        ok = bool(member) and src_ok and announces and breaks
-        ctx.ob('C17.R1', f'{fi.name}: compress_payload({enc.id})', ok,
-               f'{fi.name}: the coding is taken from the peer list ({src_txt}), checked against {member[0].split(" in ")[1] if member else "?"}, '
-               f'announced in Content-Encoding, first match wins' if ok else
-               f'{fi.name}: compress_payload({enc.id}) - member-of-supported guard={bool(member)}, '
-               f'peer list source ok={src_ok} ({src_txt}), announced={announces}, single coding={breaks}',
-               fi=fi, node=c, witness={'facts': facts})
+            peer = loops[-1].iter
+            m = [txt for txt, pol in facts if pol is True and txt.startswith(f'{enc.id} in ')
+                 and txt.endswith('supported_encodings')]
+            member = m[0].split(' in ', 1)[1] if m else None
+        else:
+            d = g.unique_def(node, enc.id)
+            v = g.def_value(d, enc.id) if d is not None else None
+            if isinstance(v, ast.Call) and call_name(v) == 'next' and v.args and isinstance(v.args[0], ast.GeneratorExp) \
+                    and len(v.args[0].generators) == 1 and isinstance(v.args[0].elt, ast.Name) \
+                    and isinstance(v.args[0].generators[0].target, ast.Name) \
+                    and v.args[0].generators[0].target.id == v.args[0].elt.id:
+                gen = v.args[0].generators[0]
+                peer = gen.iter
+                for cond in gen.ifs:
+                    if isinstance(cond, ast.Compare) and len(cond.ops) == 1 and isinstance(cond.ops[0], ast.In) and \
+                            unparse(cond.left) == gen.target.id and unparse(cond.comparators[0]).endswith('supported_encodings'):
+                        member = unparse(cond.comparators[0])
+                if (f'{enc.id} is None', False) not in facts and (enc.id, True) not in facts:
+                    member = None  # the "nothing matched" default may reach compress_payload
+        src_ok = False
+        src_txt = unparse(peer) if peer is not None else ''
+        if isinstance(peer, ast.Name):
+            src_ok = any(isinstance(v, ast.Call) and call_name(v) == 'parse_header' for v in assigns.get(peer.id, []))
+        elif src_txt == 'self.request_encodings':
+            src_ok = True
+        # the chosen coding is announced on every path that compressed with it, and only one coding is applied per message
+        ann = []
+        for n2 in g.real_nodes():
+            for c2 in n2.calls():
+                if call_name(c2) in ('send_header', 'add_header', 'putheader') and len(c2.args) == 2 and \
+                        isinstance(c2.args[0], ast.Constant) and c2.args[0].value == 'Content-Encoding' and \
+                        unparse(c2.args[1]) == enc.id:
+                    ann.append(n2)
+            if n2.kind == 'stmt' and isinstance(n2.stmt, ast.Assign) and isinstance(n2.stmt.targets[0], ast.Subscript) and \
+                    isinstance(n2.stmt.targets[0].slice, ast.Constant) and n2.stmt.targets[0].slice.value == 'Content-Encoding' \
+                    and unparse(n2.stmt.value) == enc.id:
+                ann.append(n2)
+        announces = bool(ann) and g.must_pass(node, ann)
+        single = not g.path_exists(node, node, normal_only=True)
+        ok = member is not None and src_ok and announces and single
+        ctx.ob('C17.R1', f'{fi.name}: compress_payload', ok,
+               f'{fi.name}: the coding is taken from the peer list ({src_txt}), checked against {member}, '
+               f'announced in Content-Encoding, one coding per message' if ok else
+               f'{fi.name}: compress_payload({enc.id}) - member-of-supported guard={member is not None}, '
+               f'peer list source ok={src_ok} ({src_txt}), announced={announces}, single coding={single}',
+               fi=fi, node=c, witness={'facts': list(facts)})
     # the peer list of notification clients comes from the Accept-Encoding of the Subscribe request
     mk = repo.func('sdc11073.provider.subscriptionmgr.ActionBasedSubscriptionsManager._mk_subscription_instance')
     assigns = local_assignments(mk.node)
@@ -133,16 +160,23 @@ def run(ctx):  # noqa: C901, PLR0912, PLR0915
         facts = g.facts_at(node) if node is not None else []
         et = unparse(enc) if enc is not None else '?'
         member = [txt for txt, pol in facts if pol is True and txt.startswith(f'{et} in ')]
-        # the other edge raises
+        # a coding that is present but not in the supported set never reaches the normal exit (path condition of the exit
+        # as a truth table: guard clause or else-branch, `in` or `not in` - all the same)
         raises = False
-        for b in g.nodes:
-            if b.kind == 'branch' and b.label is False and unparse(b.test).startswith(f'{et} in '):
-                reach = g._pp_reach([(b, 1)], normal_only=True)  # noqa: SLF001
-                raises = (g.exit.id, 0) not in reach or any(
-                    n.kind == 'raisestmt' and (n.id, 0) in reach for n in g.nodes)
-                # every normal continuation from the false edge must hit a raise before the exit
-                raises = not g.path_exists(b, g.exit, avoid=[n for n in g.nodes if n.kind == 'raisestmt'],
-                                           normal_only=True) if raises else False
+        if member and node is not None:
+            # every branch edge on which the coding is known NOT to be in the supported set leads to a raise on all normal
+            # paths (guard clause or else-branch, `in` or `not in`: compared as canonical literals)
+            from engine.cfg import _atoms, canon_lit
+            want = canon_lit(member[0], False)
+            neg_edges = []
+            for bn in g.nodes:
+                if bn.kind == 'branch' and bn.label in (True, False):
+                    lits = []
+                    _atoms(bn.test, bn.label, lits)
+                    if any(canon_lit(t, p) == want for t, p in lits):
+                        neg_edges.append(bn)
+            rz = [n for n in g.nodes if n.kind == 'raisestmt']
+            raises = bool(neg_edges) and not any(g.path_exists(bn, g.exit, avoid=rz, normal_only=True) for bn in neg_edges)
         ok = bool(member) and raises
         ctx.ob('C17.R3', f'{fi.name}: decompress_payload({et})', ok,
                f'{fi.name}: a body is decompressed only if its coding is in the supported set, otherwise the '
@@ -221,28 +255,54 @@ def run(ctx):  # noqa: C901, PLR0912, PLR0915
 
 
 def _q_zero_excluded(fn):
-    """The q value must reach a comparison against 0 that filters the returned codings."""
-    assigns = local_assignments(fn)
+    """The q value must reach a comparison against 0 that filters the returned codings.
+
+    Decided on data dependence (engine/deps.py): the dict that records `float(<q>)` per coding is found by that store, the
+    returned comprehension must carry a filter `X > 0` / `X != 0` / `0 < X` whose X depends on the parsed float - whatever
+    the dict, the loop variables and intermediate lists are called."""
+    from engine.deps import Deps
+    dp = Deps(fn)
+    qdicts = {n.targets[0].value.id for n in walk_no_nested(fn) if isinstance(n, ast.Assign)
+              and isinstance(n.targets[0], ast.Subscript) and isinstance(n.targets[0].value, ast.Name)
+              and any(isinstance(c, ast.Call) and call_name(c) == 'float' for c in ast.walk(n.value))}
+    if not qdicts:
+        return False, 'no q-value is parsed (float(...)) into a per-coding record'
+
+    def positive_test(cmp_):
+        if len(cmp_.ops) != 1:
+            return None
+        op, l, r = cmp_.ops[0], cmp_.left, cmp_.comparators[0]
+        if isinstance(r, ast.Constant) and r.value == 0 and isinstance(op, (ast.Gt, ast.NotEq)):
+            return l
+        if isinstance(l, ast.Constant) and l.value == 0 and isinstance(op, (ast.Lt, ast.NotEq)):
+            return r
+        return None
     for n in walk_no_nested(fn):
         if isinstance(n, ast.Return) and n.value is not None:
-            for comp in [x for x in ast.walk(n.value) if isinstance(x, (ast.ListComp, ast.GeneratorExp))]:
+            comps = [x for x in ast.walk(n.value) if isinstance(x, (ast.ListComp, ast.GeneratorExp))]
+            # the returned name may be bound to the comprehension
+            if isinstance(n.value, ast.Name):
+                comps += [x for v in dp.binds.get(n.value.id, []) for x in ast.walk(v)
+                          if isinstance(x, (ast.ListComp, ast.GeneratorExp))]
+            for comp in comps:
                 for gen in comp.generators:
                     for cond in gen.ifs:
                         for cmp_ in [x for x in ast.walk(cond) if isinstance(x, ast.Compare)]:
-                            if len(cmp_.ops) == 1 and isinstance(cmp_.ops[0], (ast.Gt, ast.NotEq)) and \
-                                    isinstance(cmp_.comparators[0], ast.Constant) and cmp_.comparators[0].value == 0:
-                                left = unparse(cmp_.left)
-                                tgt = unparse(gen.target)
-                                # the compared value is the quality element of the (name, quality) item
-                                if left.endswith('[1]') or (isinstance(gen.target, ast.Tuple) and
-                                                            len(gen.target.elts) == 2 and
-                                                            left == unparse(gen.target.elts[1])):
-                                    if 'parsed_headers' in unparse(gen.iter) or depends_on(gen.iter, assigns, 'parsed_headers'):
-                                        return True, f'the returned list keeps only items with {unparse(cmp_)} ({tgt})'
+                            x = positive_test(cmp_)
+                            if x is None or 'call:float' not in dp.sources(gen.iter):
+                                continue
+                            # x must be the quality element of the (coding, quality) item the comprehension iterates over
+                            t = gen.target
+                            is_q = (isinstance(x, ast.Subscript) and isinstance(x.slice, ast.Constant) and x.slice.value == 1
+                                    and isinstance(x.value, ast.Name) and isinstance(t, ast.Name) and x.value.id == t.id) or \
+                                   (isinstance(x, ast.Name) and isinstance(t, ast.Tuple) and len(t.elts) == 2 and
+                                    isinstance(t.elts[1], ast.Name) and t.elts[1].id == x.id)
+                            if is_q:
+                                return True, f'the returned list keeps only items with {unparse(cmp_)}'
     # alternative: entries are stored only when q > 0
     g = cfg_of_fn(fn)
     stores = [n for n in g.real_nodes() if n.kind == 'stmt' and isinstance(n.stmt, ast.Assign)
-              and isinstance(n.stmt.targets[0], ast.Subscript) and unparse(n.stmt.targets[0].value) == 'parsed_headers']
+              and isinstance(n.stmt.targets[0], ast.Subscript) and unparse(n.stmt.targets[0].value) in qdicts]
     if stores and all(any(pol is True and (' > 0' in txt) for txt, pol in g.facts_at(s)) for s in stores):
         return True, 'codings are recorded only under a q > 0 test'
     return False, ('the q-value only orders the result; a coding refused with q=0 (e.g. "gzip;q=0") is returned as '
